@@ -26,10 +26,11 @@ CONSTANTS Models, QSets, Requests, Slots, Wrappers, MaxOps,
 VARIABLES kern,    \* [Slots -> [m, q, buf] | Dead]   buf: what the result buffer holds (a request or "garbage")
           loaded,  \* [Models -> BOOLEAN]  library currently dlopen'ed
           wrap,    \* [Wrappers -> [m, store]]  store: request last set with setParam
+          dm,      \* [Models \X QSets -> buf]  DirectModel calculators (each keeps one kernel and its buffer)
           dict,    \* [Requests -> BOOLEAN]  caller's dictionary for ModeReq still has its mode key
           ret,     \* last returned value: [val |-> <<m, q, r>> or "garbage", want |-> <<m, q, r>>]
           nops
-vars == <<kern, loaded, wrap, dict, ret, nops>>
+vars == <<kern, loaded, wrap, dm, dict, ret, nops>>
 
 Dead == [m |-> "none", q |-> "none", buf |-> <<"garbage">>]
 NoRet == [val |-> <<"none">>, want |-> <<"none">>]
@@ -37,6 +38,7 @@ NoRet == [val |-> <<"none">>, want |-> <<"none">>]
 Init == /\ kern = [s \in Slots |-> Dead]
         /\ loaded = [m \in Models |-> FALSE]
         /\ wrap = [w \in Wrappers |-> [m |-> CHOOSE m \in Models : TRUE, store |-> CHOOSE r \in Requests : TRUE]]
+        /\ dm = [x \in Models \X QSets |-> <<"garbage">>]
         /\ dict = [r \in Requests |-> TRUE]
         /\ ret = NoRet
         /\ nops = 0
@@ -48,7 +50,7 @@ MakeKernel(s, m, q) ==
     /\ kern' = [kern EXCEPT ![s] = [m |-> m, q |-> q, buf |-> <<"garbage">>]]   \* np.empty
     /\ loaded' = [loaded EXCEPT ![m] = TRUE]                                \* lazy dlopen
     /\ ret' = NoRet
-    /\ UNCHANGED <<wrap, dict>>
+    /\ UNCHANGED <<wrap, dm, dict>>
 
 \* what a kernel call leaves in the buffer and returns
 Overwrites(r) == Variant = "fixed" \/ r # EmptyReq
@@ -63,13 +65,13 @@ Call(s, r, isFq) ==
        IN /\ kern' = [kern EXCEPT ![s].buf = newbuf]
           /\ ret' = [val |-> newbuf, want |-> <<kern[s].m, kern[s].q, r>>]
     /\ dict' = IF isFq /\ r = ModeReq /\ Variant = "asWritten" THEN [dict EXCEPT ![r] = FALSE] ELSE dict
-    /\ UNCHANGED <<loaded, wrap>>
+    /\ UNCHANGED <<loaded, wrap, dm>>
 
 ReleaseKernel(s) ==
     /\ Tick /\ kern[s].m # "none"
     /\ kern' = [kern EXCEPT ![s] = Dead]
     /\ ret' = NoRet
-    /\ UNCHANGED <<loaded, wrap, dict>>
+    /\ UNCHANGED <<loaded, wrap, dm, dict>>
 
 \* KernelModel.release (dlclose); kernels made before keep their function pointers only if no
 \* other handle keeps the library mapped, so the histories release kernels first
@@ -78,27 +80,44 @@ ReleaseModel(m) ==
     /\ \A s \in Slots : kern[s].m # m
     /\ loaded' = [loaded EXCEPT ![m] = FALSE]
     /\ ret' = NoRet
-    /\ UNCHANGED <<kern, wrap, dict>>
+    /\ UNCHANGED <<kern, wrap, dm, dict>>
 
 SetParam(w, r) ==
     /\ Tick
     /\ wrap' = [wrap EXCEPT ![w].store = r]
     /\ ret' = NoRet
-    /\ UNCHANGED <<kern, loaded, dict>>
+    /\ UNCHANGED <<kern, loaded, dm, dict>>
 \* evalDistribution builds a fresh kernel, evaluates, releases it
 Eval(w, q) ==
     /\ Tick
     /\ LET r == wrap[w].store IN
        ret' = [val |-> IF Overwrites(r) THEN <<wrap[w].m, q, r>> ELSE <<"garbage">>, want |-> <<wrap[w].m, q, r>>]
     /\ loaded' = [loaded EXCEPT ![wrap[w].m] = TRUE]
-    /\ UNCHANGED <<kern, wrap, dict>>
+    /\ UNCHANGED <<kern, wrap, dm, dict>>
 Clone(w, w2) ==
     /\ Tick /\ w # w2
     /\ wrap' = [wrap EXCEPT ![w2] = wrap[w]]
     /\ ret' = NoRet
-    /\ UNCHANGED <<kern, loaded, dict>>
+    /\ UNCHANGED <<kern, loaded, dm, dict>>
+
+\* DirectModel(data(q), model)(**request): the calculator keeps its kernel between calls
+Direct(m, q, r) ==
+    /\ Tick
+    /\ LET newbuf == IF Overwrites(r) THEN <<m, q, r>> ELSE dm[<<m, q>>] IN
+       /\ dm' = [dm EXCEPT ![<<m, q>>] = newbuf]
+       /\ ret' = [val |-> newbuf, want |-> <<m, q, r>>]
+    /\ loaded' = [loaded EXCEPT ![m] = TRUE]
+    /\ UNCHANGED <<kern, wrap, dict>>
+\* core.load_model again: a new KernelModel object replaces the old one for later make_kernel calls
+Reload(m) ==
+    /\ Tick
+    /\ loaded' = [loaded EXCEPT ![m] = FALSE]      \* the new object opens its library lazily
+    /\ ret' = NoRet
+    /\ UNCHANGED <<kern, wrap, dm, dict>>
 
 Next == \/ \E s \in Slots, m \in Models, q \in QSets : MakeKernel(s, m, q)
+        \/ \E m \in Models, q \in QSets, r \in Requests : Direct(m, q, r)
+        \/ \E m \in Models : Reload(m)
         \/ \E s \in Slots, r \in Requests, f \in BOOLEAN : Call(s, r, f)
         \/ \E s \in Slots : ReleaseKernel(s)
         \/ \E m \in Models : ReleaseModel(m)
